@@ -78,12 +78,17 @@ func TestC07(t *testing.T) {
 	// the user's `canary fail` lands in the middle of a sync of the canary replica set: the mark must survive it
 	s3mid := corpusS3(nodes, "1", "auto", 1, &w.Alpha{MidCmds: []string{"canary-fail"}})
 	s3mid.name = "S4-canary-fail-overtakes-a-sync"
+	// a pod template whose metadata carries a namespace and a generateName: the rollback must restore exactly it
+	s3meta := corpusS3(nodes, "1", "auto", 1, &w.Alpha{Kubectl: []string{"canary-fail"}})
+	s3meta.name = "S4-canary-template-with-namespace-metadata"
+	s3meta.tpl0, s3meta.tpls = "A+metans", []string{"A+metans", "B+metans"}
+	s3meta.first = []w.Event{evb("setTemplate", edsKey, "B+metans")}
 	type fstate struct {
 		sc *w.Scenario
 		s  *w.State
 	}
 	var failedStates []fstate
-	runWorld(t, run, []scOpt{s3, s3short, s3m, s3mid}, []func(*w.MonCtx){w.MonC07, w.MonC05}, 0, func(sc *w.Scenario, s *w.State, d int) {
+	runWorld(t, run, []scOpt{s3, s3short, s3m, s3mid, s3meta}, []func(*w.MonCtx){w.MonC07, w.MonC05}, 0, func(sc *w.Scenario, s *w.State, d int) {
 		if rs, _ := failedCanary(s); rs != nil {
 			if len(failedStates) < 150000 {
 				failedStates = append(failedStates, fstate{sc, s})
